@@ -4,7 +4,8 @@
      ts2  <comp> <fs> <n> <xp> <dirs> <ncols> <col>... <nrows> <phase row>...     -> "X" | time list, series list
      ss1 / ss2  same arguments followed by <list of sample indices as floats>     -> nfft, samples at those indices
      grid <fs> <n>                                                                -> nfft, freqs list, steps list
-     resample <xp> <e> <fs> <n>                                                   -> resampled E list *)
+     resample <xp> <e> <fs> <n>                                                   -> resampled E list
+     fstep <f list> / dstep <direction list>                                      -> frequency_step / direction_step *)
 let rd_comp () = match next () with
   | "u" -> CU | "v" -> CV | "w" -> CW | "x" -> CX | "y" -> CY | "z" -> CZ | t -> failwith ("component? " ^ t)
 let rd_cols2 () =
@@ -50,5 +51,7 @@ let handle cmd =
       let xp = rd_list rd_float in let e = rd_list rd_float in
       let fs = rd_float () in let n = rd_nat () in
       plist pf (resampled xp e (fft_freqs fs n))
+  | "fstep" -> plist pf (frequency_step (rd_list rd_float))
+  | "dstep" -> plist pf (dsteps (rd_list rd_float))
   | _ -> "ERR unknown"
 let () = main_loop handle
